@@ -111,6 +111,8 @@ func csvDecodeFnBody(fn string, value rel.Value, config decodeConfig) (rel.Value
 		bs = []byte(t.String())
 	case rel.Bytes:
 		bs = t.Bytes()
+	case rel.EmptySet:
+		// The empty string and the empty byte array are the empty set: no records.
 	default:
 		return nil, errors.Errorf("first arg to %s must be string or bytes, not %s", fn, rel.ValueTypeAsString(value))
 	}
